@@ -242,6 +242,28 @@ PROPS = {
             "math.Log / math.Pow are taken to be the real functions within tolerance",
         ],
     },
+    "C18": {
+        "harness": [{"cmd": "c18", "n": {"quick": 200, "thorough": 4000}, "extra": ["-per", "25"]}],
+        "extra_targets": ["Corr/C18Cert.vo"],
+        "rule": "JC, K2P (5 kappas), F81, F84, TN93, GTR (six rates k/4, k=1..16) with base frequencies on the open "
+                "simplex in 32nds, and the seven protein matrices with their own or random user frequencies in 256ths "
+                "(10% of the cases); for branch lengths s, t in {1/64, 1/8, 1/2, 1, 2, 5} the matrices P(0), P(s), P(t), "
+                "P(s+t), P(100), P(2^-20) of models.NewPij and the eigen system of Model.Eigens() are exported as exact "
+                "binary64 values and every clause is judged at 2^-80 fixed point: stochastic, P(0)=I, semigroup, detailed "
+                "balance, convergence (row L1 distance non-increasing, one zero eigenvalue, others negative), rate matrix "
+                "Q=R D L with zero row sums, normalisation, reversibility, equality to the textbook rational rate matrix "
+                "(nucleotide models), L R = R L = I, generator (P(h)-I)/h = Q; 60 (thorough 2000) entries are certified by "
+                "the interval tactic against the closed forms (JC, K2P) or the SetLength assembly on the returned eigen "
+                "system (F81, F84, TN93, GTR); non-trivial = non-uniform frequencies or protein; distinct = distinct "
+                "(model, parameters, frequencies, s, t)",
+        "nontrivial": lambda m: m.get("model") not in ("JC", "K2P"),
+        "assumptions": [
+            "binary64 rounding and math.Exp are outside the model: laws are judged with tolerance 1e-8 (1e-3 for the "
+            "finite-difference generator, 1e-5 for the normalisation with the published protein frequencies)",
+            "the numerical eigen-decomposition (gonum) is not modelled: its output is checked against the hypotheses "
+            "of the general theorems per instance",
+        ],
+    },
     "C08": {
         "harness": [{"cmd": "c08", "n": {"quick": 600, "thorough": 20000}, "extra": ["-per", "100"]}],
         "rule": "the alignments and option sets of C07, each followed by one relation between two real calls of "
